@@ -164,24 +164,24 @@ theorem extstaticcallI_good (hb : Base s0) (hE : s0.isEof = true) (hN : ∀ s', 
 end ext
 
 section create
-variable {s0 : IState} {c : EofCtx} {sec : List Nat} {i : Nat}
+variable {K : EofCtx} {s0 : IState} {c : EofCtx} {sec : List Nat} {i : Nat}
 
 /-- an EOFCREATE action whose gas limit was charged satisfies `ActE` -/
-theorem actE_eofCreate (hs : StartE s0 c sec i) {k : Nat} {st ne : Bool} {L : Nat} {s' : IState}
+theorem actE_eofCreate (hs : StartE K s0 c sec i) {k : Nat} {st ne : Bool} {L : Nat} {s' : IState}
     (hc : Core k st ne L s0 s') (hpc : s'.pc ∈ boundaries sec) (ci : EofCreateInputs)
-    (hg : ci.gasLimit + 1 ≤ k) : ActE s0 (.eofCreate ci) s' := by
+    (hg : ci.gasLimit + 1 ≤ k) : ActE K s0 (.eofCreate ci) s' := by
   refine ⟨hs.invE hc hpc, ?_, trivial⟩
   have hm := hc.meas
   show measure s' + ci.gasLimit + 1 ≤ measure s0
   omega
 
 /-- EOFCREATE of a well-formed container: the sub-container exists and decodes with its data filled -/
-theorem eofcreateI_good (hs : StartE s0 c sec i) (himm : i + 2 ≤ sec.length) (hnext : i + 2 ∈ boundaries sec)
+theorem eofcreateI_good (hs : StartE K s0 c sec i) (himm : i + 2 ≤ sec.length) (hnext : i + 2 ∈ boundaries sec)
     {sub : List Nat} (hsub : c.containers[sec.getD (i + 1) 0]? = some sub) (hok : subcontainerOk sub = true) :
-    GoodP (Halt s0) (NextE s0) (ActE s0) (eofcreateI s0) := by
+    GoodP (Halt s0) (NextE K s0) (ActE K s0) (eofcreateI s0) := by
   have h := hs.rel
   unfold eofcreateI
-  refine hostCallAction_good (QA := ActE s0) (fun _ _ hq => hq) _ _
+  refine hostCallAction_good (QA := ActE K s0) (fun _ _ hq => hq) _ _
     (fun _ s' => ∃ k L, 1 ≤ k ∧ Rel k true false L s0 s') ?_ ?_
   · unfold eofcreatePre
     refine sat_bind (requireEof_pass h hs.isEof) ?_
@@ -236,7 +236,7 @@ theorem eofcreateI_good (hs : StartE s0 c sec i) (himm : i + 2 ≤ sec.length) (
       exact sat_pure (actE_eofCreate hs h3 hpc3 _ hk')
 
 /-- RETURNCONTRACT of a well-formed container never continues and never faults -/
-theorem returnContractI_sat {Q : Unit → IState → Prop} (hs : StartE s0 c sec i) (himm : i + 2 ≤ sec.length)
+theorem returnContractI_sat {Q : Unit → IState → Prop} (hs : StartE K s0 c sec i) (himm : i + 2 ≤ sec.length)
     {sub : List Nat} (hsub : c.containers[sec.getD (i + 1) 0]? = some sub)
     {hd : Eof.Header} (hh : headerOf sub = some hd) (hp : hd.dataSizeRawI + 2 ≤ sub.length) :
     Exec.Sat (returnContractI s0) (Halt s0) Q := by
